@@ -647,18 +647,9 @@ class OPENQASMVisitor(Visitor):
         """Reset node visitor."""
         params: list[float] = []
         qlist = tree.children[-1]
-        if len(qlist.children) == 2:
-            location = CircuitLocation(self.convert_qubit_ids_to_indices(qlist))
-            op = Operation(Reset(), location, params)
+        for qubit_index in self.convert_qubit_ids_to_indices(qlist):
+            op = Operation(Reset(), CircuitLocation(qubit_index), params)
             self.op_list.append(op)
-        else:
-            locations = [
-                CircuitLocation(i)
-                for i in range(self.qubit_regs[0][1])
-            ]
-            for location in locations:
-                op = Operation(Reset(), location, params)
-                self.op_list.append(op)
 
     def convert_qubit_ids_to_indices(self, qlist: lark.Tree) -> list[int]:
         if qlist.data == 'anylist':
